@@ -356,6 +356,7 @@ class Lattice:
         obj = cls.__new__(cls)  # create class instance, no __init__() call
         hdf5_loader.memorize_load(h5gr, obj)
 
+        obj._from_hdf5_early(hdf5_loader, h5gr, subpath)
         obj.unit_cell = hdf5_loader.load(subpath + 'unit_cell')
         Ls = hdf5_loader.load(subpath + 'lengths')
         obj._set_Ls(Ls)
@@ -375,6 +376,10 @@ class Lattice:
             obj.position_disorder = None
         obj.test_sanity()
         return obj
+
+    def _from_hdf5_early(self, hdf5_loader, h5gr, subpath):
+        """Hook for subclasses: load what ``_set_Ls`` and the ``order`` setter need during :meth:`from_hdf5`."""
+        pass
 
     @property
     def basis(self):
@@ -2344,13 +2349,12 @@ class HelicalLattice(Lattice):
     def save_hdf5(self, hdf5_saver, h5gr, subpath):
         super().save_hdf5(hdf5_saver, h5gr, subpath)
         hdf5_saver.save(self.regular_lattice, subpath + 'regular_lattice')
-        h5gr.attrs['N_unit_cells'] = self.N_sites
+        h5gr.attrs['N_unit_cells'] = self._N_cells
 
-    @classmethod
-    def from_hdf5(cls, hdf5_loader, h5gr, subpath):
-        obj = super().from_hdf5(hdf5_loader, h5gr, subpath)
-        obj._N_cells = hdf5_loader.get_attr(h5gr, 'N_unit_cells')
-        return obj
+    def _from_hdf5_early(self, hdf5_loader, h5gr, subpath):
+        # needed by `_set_Ls` and the `order` setter, which `Lattice.from_hdf5` calls
+        self._N_cells = int(hdf5_loader.get_attr(h5gr, 'N_unit_cells'))
+        self.regular_lattice = hdf5_loader.load(subpath + 'regular_lattice')
 
     def ordering(self, order):
         """Provide possible orderings of the lattice sites.
